@@ -62,7 +62,7 @@ def Held (s : St) (H : List (Nat × Nat)) : Prop :=
 /-- the re-issue loop of `pick_lock` on the recorded `(ensemble slot, path)` pairs `l`: it hands out exactly these
     pairs, in order; afterwards every one of them (and everything held before, `H`) sits locked in its slot with
     its path — provided the recorded paths are pairwise distinct and distinct from those already held. -/
-theorem reissue_go_spec : ∀ (l : List (Nat × Nat)) (s s' : St) (pairs : List (Int × Option Nat)) (H : List (Nat × Nat)),
+theorem reissue_go_spec6 : ∀ (l : List (Nat × Nat)) (s s' : St) (pairs : List (Int × Option Nat)) (H : List (Nat × Nat)),
     s.trajs.length = s.locks.length → Held s H → ((H ++ l).map (·.2)).Nodup →
     reissue.go s l = .ok (s', pairs) →
     pairs = l.map (fun x => ((x.1 : Int) - (off : Int), some x.2)) ∧ Held s' (H ++ l) ∧
@@ -189,7 +189,7 @@ def recEntry (r : List Nat × List Nat) : List Int × List Nat := (r.1.map (fun 
     one (its ensembles and paths, in order) **with the streams of the recorded ordinal**, no random draw is made,
     the record is consumed, the job is put on record again with the same ordinal, the spawn counter is untouched,
     and its slots are locked with its paths. -/
-theorem pickLock_reissue {s s' : St} {o : PickOutcome} {sv : Nat} {ps : List Picked} {ds : List Draw}
+theorem pickLock_reissue6 {s s' : St} {o : PickOutcome} {sv : Nat} {ps : List Picked} {ds : List Draw}
     (es ts : List Nat) (rest : List (List Nat × List Nat)) (ord : Nat) (ordRest : List (Option Nat))
     (H : List (Nat × Nat))
     (hl0 : s.locked0 = (es, ts) :: rest) (hord : s.locked0Ord = some ord :: ordRest)
@@ -208,7 +208,7 @@ theorem pickLock_reissue {s s' : St} {o : PickOutcome} {sv : Nat} {ps : List Pic
   split at h
   · exact absurd h (by simp)
   · rename_i s1 pairs hre
-    have hspec := reissue_go_spec (es.zip ts) { s with locked0 := rest, locked0Ord := s.locked0Ord.tail } s1 pairs H
+    have hspec := reissue_go_spec6 (es.zip ts) { s with locked0 := rest, locked0Ord := s.locked0Ord.tail } s1 pairs H
       hlen hH hnd hre
     obtain ⟨hp, hH1, hlen1, hfr⟩ := hspec
     have hro : reissueOrd s s1 = ord := by simp [reissueOrd, hord]
@@ -279,7 +279,7 @@ theorem initiate_fields (s : St) :
 
 /-- `initiate()` answers True only while a worker slot and a step are left; it then uses up one slot.  Hence at most
     `min(workers, tsteps − cstep)` jobs are started by the initiation loop (and so re-issued after a restart). -/
-theorem initiate_go {s : St} (h : (initiate s).2 = true) :
+theorem initiate_go6 {s : St} (h : (initiate s).2 = true) :
     0 < s.toinitiate ∧ (s.cstep : Int) + ((s.workers : Int) - s.toinitiate) < (s.tsteps : Int) ∧
       (initiate s).1.toinitiate = s.toinitiate - 1 := by
   unfold initiate at h ⊢
@@ -318,7 +318,7 @@ theorem start_reissue {y y' : Sys} {o : PickOutcome} {sv : Nat}
     obtain ⟨f0, fl, ft, fk, f0o, flo, fsp, fen⟩ := initiate_fields y.s
     rw [prep_eq_tail] at h
     have hti : (initiate y.s).1.toinitiate ≥ 0 := by
-      have := initiate_go hgo
+      have := initiate_go6 hgo
       omega
     simp only [hti, if_true] at h
     split at h
@@ -331,7 +331,7 @@ theorem start_reissue {y y' : Sys} {o : PickOutcome} {sv : Nat}
       · rename_i s2 ps ds2 hpl
         have hH0 : Held (initiate y.s).1 H := by
           intro x hx; rw [fk, ft]; exact hH x hx
-        obtain ⟨h1, _, h3, h3o, h4, h4o, h5, _, h6, h7, h8⟩ := pickLock_reissue es ts rest ord ordRest H
+        obtain ⟨h1, _, h3, h3o, h4, h4o, h5, _, h6, h7, h8⟩ := pickLock_reissue6 es ts rest ord ordRest H
           (by rw [f0]; exact hl0) (by rw [f0o]; exact hord) (by rw [ft, fk]; exact hlen) hH0 hnd hpl
         obtain ⟨⟨occ', hs3⟩, hj⟩ := prepTail_ok hprep
         refine ⟨job, rfl, ?_, ?_, ?_, ?_, ?_, ?_, ?_, ?_, ?_⟩
